@@ -81,7 +81,7 @@ class ProcMon:
         except (FileNotFoundError, ProcessLookupError):
             return 'gone'
 
-    def leftovers(self, grace=2.0):
+    def leftovers(self, grace=10.0):
         """processes started during the call that are still running.  A short grace period lets
         a just-terminated process disappear; the verdict does not depend on its length (a process
         that is merely slow to die is still reported only if it is alive at the end)."""
